@@ -1,11 +1,12 @@
-import CollectionsC.Proofs.ArraySized7
+import CollectionsC.Proofs.ArraySized8
 /-! # C06 (sized array part) — memory safety and leak freedom
 
 Statements only.  `Mem.fault` is set by a checked buffer access outside the allocated bytes
 (`m.check (offset + n ≤ buf.length)` precedes every `memcpy`/`memmove`/byte access of the model), by
-a division by `data_length = 0` and by a `free` with nothing live.  `live` counts the blocks owned
-through the configured triple: an array owns two (header, buffer).  The sized array has no
-callback-taking destroy/remove variants, so part (c) of C06 does not apply to it. -/
+a division by `data_length = 0` and by a release with nothing live on that allocator.  An array
+owns two blocks (header, buffer) **of its own triple**: `own m a.triple` is `m.live` for an array
+built with `new_conf` and `m.liveLibc` for one built with `cc_array_sized_new` (C library allocator).
+The sized array has no callback-taking destroy/remove variants, so part (c) of C06 does not apply. -/
 namespace CC.Properties.C06Sized
 open CC CC.Gen CC.ArraySized
 
@@ -13,61 +14,79 @@ open CC CC.Gen CC.ArraySized
 theorem nofault (a : ArraySized) (op : Spec.SSeq.Op Elem) (m : Mem) (h : a.Inv) (hw : OpWF a.dataLen op) :
     (a.step op m).2.2.fault = m.fault := step_nofault a op m h hw
 
-/-- (a) lifted to histories: the fault flag after any history is the one before it; every
-intermediate state satisfies the invariant (all offsets below the allocated byte count) -/
+/-- (a) lifted to histories, for every refusal schedule: the fault flag after any history is the
+one before it; every intermediate state satisfies the invariant (all offsets below the allocated
+byte count) -/
 theorem history_nofault (a : ArraySized) (ops : List (Spec.SSeq.Op Elem)) (m : Mem) (h : a.Inv)
     (hw : ∀ op ∈ ops, OpWF a.dataLen op) :
     (a.run ops m).2.2.fault = m.fault ∧ (a.run ops m).2.1.Inv :=
   ⟨(run_refines ops a m h hw).2.2.2.2.2.2.1, (run_refines ops a m h hw).2.2.1⟩
 
-/-- iterator programs do not fault either -/
+/-- iterator programs neither fault nor change the number of blocks the array owns -/
 theorem iter_program_nofault (it : Iter) (a : ArraySized) (c : Spec.SSeq.Cursor Elem)
     (cmds : List (Spec.SSeq.IterCmd Elem)) (m : Mem) (h : a.Inv) (hw : ∀ cmd ∈ cmds, IterCmdWF a.dataLen cmd)
     (hrel : IterRel it a c) :
-    (iterRun it a cmds m).2.2.2.fault = m.fault ∧ (iterRun it a cmds m).2.2.2.live = m.live :=
+    (iterRun it a cmds m).2.2.2.fault = m.fault ∧ own (iterRun it a cmds m).2.2.2 a.triple = own m a.triple :=
   ⟨(iterRun_refines cmds it a c m h hw hrel).2.2.2.2.1, (iterRun_refines cmds it a c m h hw hrel).2.2.2.1⟩
 
-/-- (b) ledger per step: the array owns its two blocks before and after every call (a growth or a
-trim allocates the new buffer and releases the old one) -/
-theorem ledger (a : ArraySized) (op : Spec.SSeq.Op Elem) (m : Mem) (h : a.Inv) (hw : OpWF a.dataLen op) :
-    (a.step op m).2.2.live = m.live := step_ledger a op m h hw
+/-- zip iterators over two arrays (possibly on different allocators): `zip_iter_add` leaves both
+live-block counters and the fault flag as they were -/
+theorem zip_add_balanced (it : Iter) (a1 a2 : ArraySized) (c : Spec.SSeq.ZipCursor Elem) (e1 e2 : Buf Nat) (m : Mem)
+    (i1 : a1.Inv) (i2 : a2.Inv) (he1 : e1.length = a1.dataLen) (he2 : e2.length = a2.dataLen)
+    (hrel : ZipRel it a1 a2 c) : Bal m (zipAdd it a1 a2 e1 e2 m).2.2.2.2 := by
+  rcases zipAdd_spec it a1 a2 c e1 e2 m i1 i2 he1 he2 hrel with ⟨_, _, _, _, h5⟩ | ⟨_, _, _, _, _, h6, _⟩
+  · exact h5
+  · exact h6
 
-/-- (b) builders: a successful `subarray`/`copy`/`filter` makes the session own two more blocks,
-a refused one none -/
+/-- (b) ledger per step: the array owns its two blocks before and after every call (a growth or a
+trim allocates the new buffer and releases the old one through the same triple) -/
+theorem ledger (a : ArraySized) (op : Spec.SSeq.Op Elem) (m : Mem) (h : a.Inv) (hw : OpWF a.dataLen op) :
+    own (a.step op m).2.2 a.triple = own m a.triple := step_ledger a op m h hw
+
+/-- (b) builders, every outcome: a call that returns an object makes the session own exactly two
+more blocks of the source's triple; one that returns none (refused, rejected range, empty source)
+leaves the counter as it was -/
 theorem builders_ledger (a : ArraySized) (b e : Nat) (p : List Nat → Bool) (m : Mem) (h : a.Inv) :
-    (((a.copy m).2.1 ≠ none → (a.copy m).2.2.live = m.live + 2) ∧ ((a.copy m).2.1 = none → (a.copy m).2.2.live = m.live)) ∧
-    (b ≤ e → e < a.size →
-      ((a.subarray b e m).2.1 ≠ none → (a.subarray b e m).2.2.live = m.live + 2) ∧
-      ((a.subarray b e m).2.1 = none → (a.subarray b e m).2.2.live = m.live)) ∧
-    (0 < a.size →
-      ((a.filter p m).2.2.1 ≠ none → (a.filter p m).2.2.2.live = m.live + 2) ∧
-      ((a.filter p m).2.2.1 = none → (a.filter p m).2.2.2.live = m.live)) := by
+    (own (a.copy m).2.2 a.triple = own m a.triple + (if (a.copy m).2.1 = none then 0 else 2)) ∧
+    (own (a.subarray b e m).2.2 a.triple = own m a.triple + (if (a.subarray b e m).2.1 = none then 0 else 2)) ∧
+    (own (a.filter p m).2.2.2 a.triple = own m a.triple + (if (a.filter p m).2.2.1 = none then 0 else 2)) := by
   refine ⟨?_, ?_, ?_⟩
   · rcases copy_spec a m h with ⟨s, h1, _, _, _, _, _, _, h8, _⟩ | ⟨_, h2, h3⟩
-    · exact ⟨fun _ => h8, fun hn => by rw [h1] at hn; cases hn⟩
-    · exact ⟨fun hn => absurd h2 hn, fun _ => h3.1⟩
-  · intro hb he
-    rcases subarray_spec a b e m h hb he with ⟨s, h1, _, _, _, _, _, _, h8, _⟩ | ⟨_, h2, h3⟩
-    · exact ⟨fun _ => h8, fun hn => by rw [h1] at hn; cases hn⟩
-    · exact ⟨fun hn => absurd h2 hn, fun _ => h3.1⟩
-  · intro h0
-    rcases filter_spec a p m h h0 with ⟨s, h1, _, _, _, _, _, h7, _⟩ | ⟨_, h2, h3⟩
-    · exact ⟨fun _ => h7, fun hn => by rw [h1] at hn; cases hn⟩
-    · exact ⟨fun hn => absurd h2 hn, fun _ => h3.1⟩
+    · rw [h8, h1]; simp
+    · rw [h3.1, h2]; simp
+  · by_cases hr : b ≤ e ∧ e < a.size
+    · rcases subarray_spec a b e m h hr.1 hr.2 with ⟨s, h1, _, _, _, _, _, _, h8, _⟩ | ⟨_, h2, h3⟩
+      · rw [h8, h1]; simp
+      · rw [h3.1, h2]; simp
+    · rw [subarray_inert a b e m (by omega)]; simp
+  · by_cases h0 : 0 < a.size
+    · rcases filter_spec a p m h h0 with ⟨s, h1, _, _, _, _, _, h7, _⟩ | ⟨_, h2, h3⟩
+      · rw [h7, h1]; simp
+      · rw [h3.1, h2]; simp
+    · rw [filter_inert a p m (by omega)]; simp
 
-/-- (b) whole life: construction, any history under any refusal schedule, `destroy` — every block
-allocated has been released exactly once (`live` back to its initial value), no double free or
-foreign free (`fault` unchanged) -/
-theorem destroy_releases_all (dl cap : Nat) (grow : Nat → Nat) (exGe : Nat → Bool) (m0 m1 : Mem) (a : ArraySized)
-    (hnew : ArraySized.new dl cap grow exGe m0 = (.ok, some a, m1))
+/-- (b) whole life, on either allocator: construction, any history under any refusal schedule,
+`destroy` — every block allocated has been released exactly once (the triple's live-block counter is
+back to its initial value), no double free or foreign free (`fault` unchanged), and the other
+allocator was never touched -/
+theorem destroy_releases_all (dl cap : Nat) (grow : Nat → Nat) (exGe : Nat → Bool) (m0 m1 : Mem) (t : Triple)
+    (a : ArraySized) (hnew : ArraySized.new dl cap grow exGe m0 t = (.ok, some a, m1))
     (ops : List (Spec.SSeq.Op Elem)) (hw : ∀ op ∈ ops, OpWF dl op) :
-    ((a.run ops m1).2.1.destroy (a.run ops m1).2.2).live = m0.live ∧
-    ((a.run ops m1).2.1.destroy (a.run ops m1).2.2).fault = m0.fault :=
-  ⟨(ArraySized.destroy_releases_all dl cap grow exGe m0 m1 a hnew ops hw).1,
-   (ArraySized.destroy_releases_all dl cap grow exGe m0 m1 a hnew ops hw).2.1⟩
+    own ((a.run ops m1).2.1.destroy (a.run ops m1).2.2) t = own m0 t ∧
+    ((a.run ops m1).2.1.destroy (a.run ops m1).2.2).fault = m0.fault ∧
+    Other t m0 ((a.run ops m1).2.1.destroy (a.run ops m1).2.2) :=
+  ArraySized.destroy_releases_all dl cap grow exGe m0 m1 t a hnew ops hw
 
 /-- the buffer size in bytes never wraps around `size_t` -/
 theorem byte_count_fits (a : ArraySized) (h : a.Inv) : a.capacity * a.dataLen < 2 ^ 64 :=
   Nat.lt_of_le_of_lt h.2.2.2.2 (by decide)
+
+/-! Non-vacuity: a concrete array on the configured triple, a history with a growth, a refused growth
+(schedule `[false, true]`), a trim and removals: no fault, two blocks owned before and after. -/
+example :
+    let a : ArraySized := { dataLen := 2, size := 1, capacity := 1, grow := fun c => 2 * c, buf := [7, 0] }
+    let m : Mem := { sched := [false, true], live := 2 }
+    a.Inv ∧ ((a.run [.add [1, 1], .add [2, 2], .add [3, 3], .trim, .removeAt 0, .reverse] m).2.2.fault = false) ∧
+    ((a.run [.add [1, 1], .add [2, 2], .add [3, 3], .trim, .removeAt 0, .reverse] m).2.2.live = 2) := by decide
 
 end CC.Properties.C06Sized
